@@ -414,9 +414,12 @@ out with `repeat()`, serve it as a FixedWaveform. -/
 def mkRepeat (p : RepP) (inner : Stim) : Except Err Stim :=
   match inner.remaining with
   | .fin m =>
-    match repeatWave p (inner.next m).1 with
-    | .ok w => .ok (.fixed w 0)
-    | .error e => .error e
+    match inner.error? with
+    | some e => .error e
+    | none =>
+      match repeatWave p (inner.next m).1 with
+      | .ok w => .ok (.fixed w 0)
+      | .error e => .error e
   | _ => .error .valueError
 
 end Psi.Stim
